@@ -1,6 +1,8 @@
 package loader
 
 import (
+	"strings"
+
 	schema "github.com/jsightapi/jsight-schema-core"
 	"github.com/jsightapi/jsight-schema-core/errs"
 
@@ -146,7 +148,7 @@ func checkBranchNodeWithOrConstraint(schemaNode ischema.Node, jsonNode ischema.B
 	}
 
 	for _, n := range c.Names() {
-		if n[0] == '@' {
+		if strings.HasPrefix(n, "@") {
 			hasUserTypeInOr = true
 			break
 		}
